@@ -143,6 +143,15 @@ def soc_in_range(rng, n):
         v = None if res is None or res.value is None else res.value.base_value
         if v is not None and not 0.0 <= v <= 100.0:
             return f"pool SoC {v!r} is outside [0, 100] for batteries {desc}", desc
+        # a capacity-weighted mean does not depend on the unit of the capacities: the same fleet with every capacity scaled
+        # by 1e-9 (still far above float resolution) has the same SoC
+        small = {b: ComponentMetricsData(b, now, {M.SOC: d["soc"], M.SOC_LOWER_BOUND: d["lower"], M.SOC_UPPER_BOUND: d["upper"],
+                                                  M.CAPACITY: d["capacity"] * 1e-9}) for b, d in enumerate(desc)}
+        res2 = SoCCalculator(frozenset(range(k))).calculate(small, set(range(k)))
+        v2 = None if res2 is None or res2.value is None else res2.value.base_value
+        if (v is None) != (v2 is None) or (v is not None and abs(v - v2) > 1e-6):
+            return (f"pool SoC is {v!r} for batteries {desc} but {v2!r} for the same batteries with all capacities scaled by 1e-9 "
+                    f"(a capacity-weighted mean is scale invariant)"), desc
     return None, None
 
 
@@ -260,7 +269,7 @@ def run(req):
                    "leave the working set and the metrics mapping they are handed untouched; a new aggregator starts from "
                    "(reported working) AND (its calculator's batteries); seeded random "
                    "fleets of 1-4 batteries with non-integer capacities and limits, full / empty / mixed: pool SoC within "
-                   "[0, 100] in floats; all distinct"}
+                   "[0, 100] in floats and unchanged when all capacities are scaled by 1e-9; all distinct"}
     if failure:
         out["failure"] = {"clause": "a NaN metric counts as missing", "detail": failure[0]}
         out["inputs"] = failure[1]
